@@ -18,7 +18,7 @@ def check(pid):
 
 # ------------------------------------------------------------------------------------------------ specifications
 
-PRODS = ["val", "err", "exc", "drop"]
+PRODS = ["val", "err", "exc", "drop", "thr_retry", "thr_drop"]
 CONS = ["then_inline", "then_exec", "detach", "drop", "detach_inline", "detach_exec", "get", "get_const", "wait", "connect"]
 
 OWN_INVS = {"OwnershipOK": "C03", "ReleasedAtQuiescence": "C03", "AbsReleased": "C03"}
@@ -32,7 +32,7 @@ def spec_unique(tier):
         # small scenarios: every schedule with one tail split (preemption between an operation and the plain code after it)
         tail_boost=[{"prod": p, "cons": c} for p in ("val", "drop") for c in CONS], tail_boost_execs=3000, tail_boost_preempt=2,
         inv_props=dict(OWN_INVS, NoRace=("C04", "C01")), primary="C01",   # "never delivered early or torn" includes visibility
-        mc_cfgs=[("UniqueCore_MC.cfg", 4, 300, "UniqueCore: 4 producer kinds x 10 consumer kinds, all interleavings, SC mode")],
+        mc_cfgs=[("UniqueCore_MC.cfg", 4, 300, "UniqueCore: 6 producer kinds x 10 consumer kinds, all interleavings, SC mode")],
         paths_cfg="UniqueCore_paths.cfg",
         dfs_max=5000,
         rand_execs=0 if tier == "quick" else 200)
